@@ -153,7 +153,7 @@ def run(ctx):
             total = ref.target.ncalls
             ks = sorted(set([2, total // 2, total - 2] + [ctx.rng.randrange(2, max(3, total - 1)) for _ in range(ctx.scale(2, 30))]))
             for k in ks:
-                path = os.path.join(d, common.ckpt_name(f"f{k}", k))
+                path = common.as_user_path(os.path.join(d, common.ckpt_name(f"f{k}", k)), k)
                 bad = sr.aspire_file_run(cfg, path, fail_at=k)
                 if bad.error is None:
                     continue
